@@ -77,6 +77,11 @@ def gen_cases(rng, tier):
         for gen_source in (True, False):
             cases.append({'kind': 'history', 'history': h, 'reuse': False, 'two': True, 'ups': [], 'loader': False, 'names': ['one', 'two'],
                           'gen_source': gen_source, 'rows': [{'a': j, 'v': enc(j * 2)} for j in range(3)]})
+    # a later step that stops reading each resource early: the resumed runs must return what the first run returned
+    for two in (False, True):
+        for h in (['run', 'run'], ['run', 'run', 'delete', 'run', 'run']):
+            cases.append({'kind': 'history', 'history': h, 'reuse': False, 'two': two, 'ups': [], 'loader': False, 'names': ['one', 'two'],
+                          'take2': True, 'rows': [{'a': j, 'v': enc('v%d' % j)} for j in range(5)]})
     # the known sub-second loss inside a history whose steps before the checkpoint add fields (recognised as the known finding)
     cases.append({'kind': 'history', 'history': ['run', 'run'], 'reuse': True, 'two': True, 'ups': ['validate', 'add_field'], 'loader': False,
                   'names': ['one', 'two'], 'rows': [{'a': 0, 'v': enc(datetime.time(23, 28, 5))},
@@ -139,6 +144,10 @@ def mk_flow(case, d, log):
                 Flow(Src([{'name': 'r', 'fields': [{'name': 'a', 'type': 'integer'}, {'name': 'w', 'type': 'integer'}],
                            'rows': [{'a': j, 'w': 2 * j} for j in range(len(rows))]}]), DF.dump_to_path(pk)).process()
         src = DF.load(os.path.join(pk, 'datapackage.json'))
+    elif case.get('take2'):
+        # two resources, and (below) a step after the checkpoints that stops reading each resource after two rows
+        src = Src([{'name': 'r', 'fields': [{'name': 'a', 'type': 'integer'}, {'name': 'v', 'type': 'any'}], 'rows': rows},
+                   {'name': 'q', 'fields': [{'name': 'b', 'type': 'integer'}], 'rows': [{'b': 10 + j} for j in range(4)]}])
     elif case.get('gen_source'):
         def gen():
             log.append('src')
@@ -157,6 +166,13 @@ def mk_flow(case, d, log):
     steps = [src, up] + [builtins_[u]() for u in case.get('ups', [])] + [DF.checkpoint(n1, checkpoint_path=d)]
     if case['two']:
         steps += [mid, DF.checkpoint(n2, checkpoint_path=d)]
+    if case.get('take2'):
+        def first_two(rows):
+            for i, r in enumerate(rows):
+                if i >= 2:
+                    break
+                yield r
+        steps.append(first_two)
     return Flow(*steps)
 
 
@@ -262,7 +278,9 @@ def oracle(case, out):
             want = [] if have1 else ['up']
         if case.get('gen_source') and not have1:
             want = want + ['src']
-        if sorted(r['log']) != sorted(want):
+        if case.get('take2') and sorted(set(r['log'])) == sorted(set(want)):
+            pass            # (two resources: the steps before the checkpoint log once per resource)
+        elif sorted(r['log']) != sorted(want):
             return 'history %r (reuse=%s): run %d executed %r, expected %r' % (case['history'], case['reuse'], ri, r['log'], want)
         have1 = True
         have2 = have2 or case['two']
